@@ -45,6 +45,7 @@
 package exec
 
 import (
+	"runtime/debug"
 	"fmt"
 	"strings"
 	"go/token"
@@ -65,6 +66,8 @@ var traceUnwind = os.Getenv("GOSYM_TRACE") != ""
 var unwindCount int
 var redirects = map[string]string{}
 var callDepth int
+var debugStacks = os.Getenv("GOSYM_DEBUG") != ""
+var firstPanicStack []byte
 
 // symIntrinsics replace a function's real body only when an argument is symbolic.
 var symIntrinsics = map[string]externalFn{}
@@ -121,6 +124,7 @@ type deferred struct {
 }
 
 type frame struct {
+	cur              ssa.Instruction
 	i                *interpreter
 	caller           *frame
 	fn               *ssa.Function
@@ -685,6 +689,12 @@ func runFrame(fr *frame) {
 			// engine control flow: never visible to the target's defer/recover
 			panic(r)
 		}
+		if debugStacks && firstPanicStack == nil {
+			firstPanicStack = debug.Stack()
+			if fr.cur != nil {
+				firstPanicStack = append([]byte(fmt.Sprintf("AT %s: %s @ %s\n", fr.fn, fr.cur, fr.i.prog.Fset.Position(fr.cur.Pos()))), firstPanicStack...)
+			}
+		}
 		fr.panicking = true
 		fr.panic = r
 		if fr.i.mode&EnableTracing != 0 {
@@ -711,6 +721,7 @@ func runFrame(fr *frame) {
 					fmt.Fprintln(os.Stderr, "\t", instr)
 				}
 			}
+			fr.cur = instr
 			if visitInstr(fr, instr) == kReturn {
 				return
 			}
